@@ -86,6 +86,34 @@ func sdfKey(sdf string) string {
 	return fmt.Sprintf("%d/%d:%d-%d:%v:%d", pf.SrcNet&model.MaskOf(pf.SrcLen), pf.SrcLen, pf.SrcLo, pf.SrcHi, pf.ProtoAny, pf.Proto)
 }
 
+// sdfCollide tells whether two flow descriptions of one session and direction would need a datapath
+// entry under one and the same (value, mask) key: equal denotation, or equal prefix and protocol with
+// overlapping true port ranges (each port of a range becomes an exact-port entry). A match table keyed
+// by (value, mask) cannot hold both, so such pairs are outside the supported envelope (DESIGN.md 5.1).
+func sdfCollide(a, b string) bool {
+	if sdfKey(a) == sdfKey(b) {
+		return true
+	}
+	if a == "" || b == "" {
+		return false
+	}
+	fa, ea := model.ParseFlow(a)
+	fb, eb := model.ParseFlow(b)
+	if ea != nil || eb != nil {
+		return false
+	}
+	pa, _ := fa.Orient("core", 1)
+	pb, _ := fb.Orient("core", 1)
+	if pa.SrcLen != pb.SrcLen || pa.SrcNet&model.MaskOf(pa.SrcLen) != pb.SrcNet&model.MaskOf(pb.SrcLen) || pa.ProtoAny != pb.ProtoAny || (!pa.ProtoAny && pa.Proto != pb.Proto) {
+		return false
+	}
+	wild := func(lo, hi uint16) bool { return lo == 0 && hi == 65535 }
+	if wild(pa.SrcLo, pa.SrcHi) || wild(pb.SrcLo, pb.SrcHi) {
+		return false
+	}
+	return pa.SrcLo <= pb.SrcHi && pb.SrcLo <= pa.SrcHi
+}
+
 // sessCtx carries the per-session constants a generator needs to keep keys distinct.
 type sessCtx struct {
 	idx    int
@@ -107,7 +135,27 @@ func mkSessCtx(t *rapid.T, idx, peer int) sessCtx {
 }
 
 // genRules draws the rules of one session inside the supported IPv4 envelope.
+// wireOrder draws the order in which the member IEs of the grouped IEs go onto the wire: the
+// canonical order of every encoder half of the time, else a permutation per rule (IE order inside a
+// grouped IE carries no meaning in PFCP).
+func wireOrder(t *rapid.T, pdrs []model.PDR, fars []model.FAR, qers []model.QER) {
+	w := rapid.OneOf(rapid.Just(uint32(0)), rapid.Uint32Range(1, 1<<30)).Draw(t, "wireorder")
+	if w == 0 {
+		return
+	}
+	for i := range pdrs {
+		pdrs[i].Perm = w + uint32(i)*7919
+	}
+	for i := range fars {
+		fars[i].Perm = w + uint32(i)*104729
+	}
+	for i := range qers {
+		qers[i].Perm = w + uint32(i)*1299709
+	}
+}
+
 func genRules(t *rapid.T, k ruleKnobs, c sessCtx) (pdrs []model.PDR, fars []model.FAR, qers []model.QER) {
+	defer func() { wireOrder(t, pdrs, fars, qers) }()
 	nPairs := rapid.IntRange(1, max(1, k.maxPairs)).Draw(t, "pairs")
 	n3 := k.accessN3
 	// QERs
@@ -129,20 +177,28 @@ func genRules(t *rapid.T, k ruleKnobs, c sessCtx) (pdrs []model.PDR, fars []mode
 	}
 	chooseUL := k.choose && rapid.Bool().Draw(t, "choose")
 	allocUE := k.ueAlloc && rapid.Bool().Draw(t, "alloc")
-	usedSDF := map[string]bool{}
+	var usedSDF []string
+	collides := func(sdf string) bool {
+		for _, u := range usedSDF {
+			if sdfCollide(u, sdf) {
+				return true
+			}
+		}
+		return false
+	}
 	for i := 0; i < nPairs; i++ {
 		sdf := ""
 		if k.sdf && (i > 0 || rapid.Bool().Draw(t, "sdf0")) {
 			sdf = genSDF(t, k.ranges)
-			if usedSDF[sdfKey(sdf)] {
+			if collides(sdf) {
 				sdf = ""
 			}
 		}
-		if usedSDF[sdfKey(sdf)] {
+		if collides(sdf) {
 			// keep match keys pairwise distinct inside the session
 			continue
 		}
-		usedSDF[sdfKey(sdf)] = true
+		usedSDF = append(usedSDF, sdf)
 		prec := uint32(rapid.IntRange(1, 255).Draw(t, "prec"))
 		if k.precSpread {
 			prec = rapid.OneOf(rapid.Uint32Range(0, 65535), rapid.SampledFrom([]uint32{0, 1, 65534, 65535})).Draw(t, "precw")
